@@ -433,10 +433,18 @@ PPL::Grid::relation_with(const Congruence& cg) const {
 
   bool known_to_intersect = false;
 
+  // The scalar products of points and parameters are scaled by the
+  // (common) divisor of the generators: the modulus has to be scaled too.
+  bool div_is_scaled = false;
+
   for (Grid_Generator_System::const_iterator i = gen_sys.begin(),
          i_end = gen_sys.end(); i != i_end; ++i) {
     const Grid_Generator& g = *i;
     Scalar_Products::assign(sp, cg, g);
+    if (!div_is_scaled && !g.is_line()) {
+      div *= g.divisor();
+      div_is_scaled = true;
+    }
 
     switch (g.type()) {
 
@@ -485,7 +493,7 @@ PPL::Grid::relation_with(const Congruence& cg) const {
 
     case Grid_Generator::PARAMETER:
       if (cg.is_proper_congruence()) {
-        sp %= (div * g.divisor());
+        sp %= div;
       }
       if (sp == 0) {
         // Parameter g satisfies the cg so the relation depends
